@@ -83,6 +83,9 @@ Definition PCSA : bytes := Eval compute in b "pcsa.".
 Definition KNS : bytes := Eval compute in b "kns.".
 Definition KSA : bytes := Eval compute in b "ksa.".
 Definition DOT : bytes := Eval compute in b ".".
+(* frequent strings of the generated case files (shorter terms elaborate faster) *)
+Definition K_KMN : bytes := Eval compute in b "kubernetes.io/metadata.name".
+Definition K_AKN : bytes := Eval compute in b "app.kubernetes.io/name".
 Definition T_DEFAULT : bytes := Eval compute in b "default".
 Definition S_TCP : bytes := Eval compute in b "tcp".
 Definition S_UDP : bytes := Eval compute in b "udp".
